@@ -13,6 +13,12 @@ claimed = {
  "C03": ("stateless model checking of the rewritten real code: exhaustive event-history enumeration (depth-bounded) against a reference REQ model + deviation-bounded schedule exploration",
          "Every history of Send/Recv/Close/reply-arrival events up to the stated depth on 2 contexts and 2 connections is executed on the real req implementation under the controlled scheduler and compared step by step with a reference model; concurrent Send/Recv/reply scenarios are explored over all schedules up to the deviation bound.",
          "DESIGN.md §6 C03"),
+ "C04": ("stateless model checking of the rewritten real code under virtual time: exhaustive event/fault-history enumeration (send, recv, reply, carrier loss, idle loss, connect, clock advance, close) with a transmission-log oracle; schedule exploration with early-timer deviations",
+         "Every history up to the stated depth over the event/fault alphabet is executed on the real req implementation with a virtual clock; every transport message written is attributed to a request and must be justified (first transmission, loss of the carrying connection, or a full retry interval since the previous transmission), byte-identical, on one connection, and never after answer/cancel/close; required retransmissions are checked at every quiescence.",
+         "DESIGN.md §6 C04"),
+ "C05": ("stateless model checking of the rewritten real code: exhaustive event-history enumeration against a reference REP/RESPONDENT routing model (cooked and raw) + deviation-bounded schedule exploration",
+         "Every history of request arrivals (routing-header depths and contents, malformed variants) from 2 connections, Recv/Send/Close on 2 contexts and connection loss up to the stated depth runs on the real rep, respondent, xrep and xrespondent code; every reply written to the wire must appear only on the requesting connection with exactly the saved routing header.",
+         "DESIGN.md §6 C05"),
 }
 
 not_applicable = {}
